@@ -2,6 +2,7 @@ package props
 
 import (
 	"fmt"
+	"strings"
 	"math/rand/v2"
 
 	"verifharness/gen"
@@ -166,6 +167,67 @@ func (p c03) Run(w *mon.Worker, idx int) mon.Result {
 			return fail("`%s`\n input    %s\n expected %s\n observed %s", expr, doc, want, got)
 		}
 		res.Verdict, res.Nontrivial, res.Detail = mon.Held, true, "only the selected entry removed"
+		return res
+	}
+	if fam == "fresh" && (idx/8)%4 == 1 {
+		// a selection that reads one past the end of a sequence (and goes on from there) selects nothing:
+		// nothing is deleted and, above all, nothing is added
+		var seqs [][]any
+		doc.Walk(nil, func(pth []any, n *ref.V) {
+			if n.K == ref.Seq && len(pth) <= 2 {
+				for _, k := range pth {
+					if s, isS := k.(string); isS && !identOK(s) {
+						return
+					}
+				}
+				seqs = append(seqs, append([]any{}, pth...))
+			}
+		})
+		if len(seqs) == 0 {
+			return skip("no sequence")
+		}
+		sp := seqs[r.IntN(len(seqs))]
+		seq, _ := doc.GetPath(sp)
+		pe := ref.PathExpr{}
+		for _, k := range sp {
+			switch kk := k.(type) {
+			case string:
+				pe.Steps = append(pe.Steps, ref.Step{Kind: "key", Key: kk})
+			case int:
+				pe.Steps = append(pe.Steps, ref.Step{Kind: "idx", Idx: kk})
+			}
+		}
+		P := pe.String()
+		if P == "." {
+			P = ""
+		}
+		n := len(seq.A)
+		var expr string
+		switch r.IntN(4) {
+		case 0:
+			expr = fmt.Sprintf("del(%s[%d].zz)", P, n)
+		case 1:
+			expr = fmt.Sprintf("del(%s[%d][0])", P, n)
+		case 2:
+			expr = fmt.Sprintf(`del(%s[] | select(.[%d] == "no such value"))`, P, r.IntN(3))
+		default:
+			expr = fmt.Sprintf(`del(.. | select(kind == "seq") | select(.[length] == "no such value"))`)
+		}
+		if strings.HasPrefix(expr, "del([") {
+			expr = "del(." + expr[4:]
+		}
+		cs["expr"] = expr
+		res.Tags = append(res.Tags, "read_past_end")
+		res.Sig = fmt.Sprintf("pastend|%s|%x", expr, doc.ShapeHash())
+		got, _, yerr := evalDoc(expr, doc)
+		res.Evals++
+		if yerr != nil {
+			return skip("selection not defined on this document: " + yerr.Error())
+		}
+		if got == nil || !ref.EqualNum(got, doc) {
+			return fail("`%s` selects nothing, the document must come back unchanged\n input    %s\n observed %s", expr, doc, got)
+		}
+		res.Verdict, res.Nontrivial, res.Detail = mon.Held, true, "nothing selected, nothing changed"
 		return res
 	}
 	switch fam {
